@@ -28,8 +28,12 @@ impl TryFrom<WireScanRequest> for ScanRequest {
 
     fn try_from(value: WireScanRequest) -> Result<Self> {
         Ok(Self {
-            log_type: value.log_type.unwrap().try_into()?,
-            limit: value.limit.unwrap() as u16,
+            log_type: value
+                .log_type
+                .ok_or_else(crate::bindings::missing_field)?
+                .try_into()?,
+            limit: value.limit.ok_or_else(crate::bindings::missing_field)?
+                as u16,
             offset: value.offset,
         })
     }
